@@ -7,7 +7,7 @@ from . import statgen as S
 from . import trajgen as G
 
 RULE = ("trajectories whose altitude segments are constant, linear or well-conditioned cubic (cubic coefficient >= 5% of the "
-        "larger of the quadratic and linear ones), 1..7 segments, scales {1,2,10}; parameter triples: ascent from 0 to above the "
+        "larger of the quadratic and linear ones), 1..7 segments (also preceded by a hover long enough to put the climb beyond byte offset 65536), scales {1,2,10}; parameter triples: ascent from 0 to above the "
         "highest altitude (never reached), speeds and accelerations incl. infinite acceleration and every invalid combination "
         "(negative, zero, NaN, infinite); a class of segments that overshoot the target and end exactly on it (finding D20). Non-trivial = a crossing exists and the parameters are valid.")
 EXPLANATION = ("invalid parameters / no crossing: infinity on both interfaces; otherwise earliest_above within the certified box "
@@ -23,8 +23,10 @@ def f32(x):
 
 def cases(rng, tier):
     n = 20000 if tier == "thorough" else 1500
-    for i in range(n):
-        tr, scale = S.climb_traj(rng)
+    nlong = 12 if tier == "thorough" else 3
+    for i in range(n + nlong):
+        long = i >= n
+        tr, scale = S.climb_traj(rng, long=long)
         zs = [tr["start"][2]]
         for s in tr["segs"]:
             zs += s["z"]
@@ -43,7 +45,7 @@ def cases(rng, tier):
                 h = rng.choice([-1.0, float("nan"), float("inf"), 1e9])
             v = rng.choice([2.0, 1.0, 500.0, f32(rng.uniform(0.1, 3000))] + ([0.0, -1.0, float("nan"), float("inf")] if rng.random() < 0.15 else []))
             a = rng.choice([4.0, 1.0, float("inf"), 2000.0, f32(rng.uniform(0.1, 5000))] + ([0.0, -2.0, float("nan")] if rng.random() < 0.15 else []))
-            yield ("stats takeoff %s %s %s %s" % (b, fhex(h), fhex(v), fhex(a)), "gen")
+            yield ("stats takeoff %s %s %s %s" % (b, fhex(h), fhex(v), fhex(a)), "long-block" if long else "gen")
     # aimed: a segment whose altitude reaches the target inside it AND ends exactly on it (overshoot that settles on
     # the takeoff altitude): quadratic profiles z0 + h((1+r)/r u - u^2/r), r the parameter of the first crossing,
     # stored as cubics with integer control points
